@@ -249,19 +249,32 @@ Proof.
     apply pat_match_wild. exact H.
 Qed.
 
+(* the hoisted search is the entry-by-entry search with [matches] *)
+Fixpoint first_match (tbl : list pte_entry) (pte : N) : option pte_entry :=
+  match tbl with
+  | [] => None
+  | e :: t => if matches e pte then Some e else first_match t pte
+  end.
+
+Lemma get_entry_first_match tbl pte : get_entry tbl pte = first_match tbl pte.
+Proof.
+  unfold get_entry. induction tbl as [|e t IH]; cbn [find_entry first_match]; [reflexivity|].
+  rewrite IH. reflexivity.
+Qed.
+
 (* first match in table order *)
 Theorem get_entry_first tbl pte : pte < 2 ^ 32 ->
   (forall pre e post, tbl = pre ++ e :: post -> hits (e_pat e) pte ->
      (forall e', In e' pre -> ~ hits (e_pat e') pte) -> get_entry tbl pte = Some e) /\
   ((forall e, In e tbl -> ~ hits (e_pat e) pte) -> get_entry tbl pte = None).
 Proof.
-  intros Hp. split.
-  - intros pre. revert tbl. induction pre as [|x pre IH]; intros tbl e post -> Hh Hn; cbn [app get_entry].
+  intros Hp. rewrite get_entry_first_match. split.
+  - intros pre. revert tbl. induction pre as [|x pre IH]; intros tbl e post -> Hh Hn; cbn [app first_match].
     + rewrite (proj2 (matches_hits e pte Hp) Hh). reflexivity.
     + destruct (matches x pte) eqn:E.
       * exfalso. apply (Hn x); [left; reflexivity|]. apply matches_hits; assumption.
       * apply (IH _ e post eq_refl Hh). intros e' He'. apply Hn. right. exact He'.
-  - induction tbl as [|x t IH]; intros Hn; cbn [get_entry]; [reflexivity|].
+  - induction tbl as [|x t IH]; intros Hn; cbn [first_match]; [reflexivity|].
     destruct (matches x pte) eqn:E.
     + exfalso. apply (Hn x); [left; reflexivity|]. apply matches_hits; assumption.
     + apply IH. intros e He. apply Hn. right. exact He.
